@@ -25,10 +25,12 @@ Dyns == {<<c, "id">> : c \in {"id", "camel", "custom"}} \cup {<<"default", g>> :
 \* optional twins of f1 / f2 carrying the dependent_required relation  o1 -> [o2]
 O(f) == [name |-> "o" \o f.name, alias |-> IF f.alias = "" THEN "" ELSE "o" \o f.alias, ovr |-> f.ovr, req |-> FALSE]
 
+\* "inherit": the fields and the validators are declared by a base class WITHOUT class aliaser, the class
+\* aliaser sits on the (otherwise empty) subclass that is (de)serialized: it is the one that applies
 Cfgs ==
-  {[struct |-> "plain", ocal |-> "none", ical |-> ic, f1 |-> a, f2 |-> b, g |-> F("own_f", "", TRUE, TRUE),
+  {[struct |-> st, ocal |-> "none", ical |-> ic, f1 |-> a, f2 |-> b, g |-> F("own_f", "", TRUE, TRUE),
     link |-> F("the_link", "", TRUE, TRUE), call |-> dy[1], glob |-> dy[2]]
-      : ic \in Cals, a \in F1s, b \in F2s, dy \in Dyns}
+      : st \in {"plain", "inherit"}, ic \in Cals, a \in F1s, b \in F2s, dy \in Dyns}
   \cup
   {[struct |-> "nested", ocal |-> oc, ical |-> ic, f1 |-> a, f2 |-> b, g |-> gg, link |-> l, call |-> dy[1], glob |-> dy[2]]
       : oc \in Cals, ic \in Cals, a \in F1s, b \in F2s, gg \in Gs, l \in Ls, dy \in Dyns}
